@@ -432,7 +432,7 @@ func main() {
 		"Stream D (needed parentheses): every parsed source that passed A/B is parsed again, EVERY ParenExpr is removed from the tree (what fast.Comp.MacroExpandCodewalk does before gomacro -m -w prints), printed per declaration, reparsed with go/parser: must parse, equal the stripped tree modulo ParenExpr, and print identically again. "+
 		"Headers generator (headers.go): functions whose statements are if/else-if/for/3-clause for/range/switch/type-switch headers (with and without init/post statements) containing composite literals of named struct/array/map/qualified/nested types as operands of == and !=, method receivers, call arguments, indexed, selected, under & and !, inside brackets, precedence parentheses and func literals, "+
 		"plus conversions (<-chan T)(c) (chan<- T)(c) (chan T)(c) (*T)(p) (**T) (func())(f) ([]T)(x) (map[K]V)(m) (interface{})(x) (struct{})(x), channel-of-channel types chan (<-chan T) etc. in var declarations and conversions, conversions as operands of * <- selector call; every parenthesis in the generated text is needed, so parsed trees compare exactly; stream D runs on them with and without positions. Non-trivial (stream D): the printer had to write at least one parenthesis back. Non-trivial (other streams): parsed file with >=1 declaration; built tree containing a binary operand under a tighter operator, a right-nested operator of equal precedence, or a binary operand of a unary/star/selector/call/index; distinct by SHA-256")
-	wd = vh.NewWatchdog(rep, 60*time.Second)
+	wd = vh.NewWatchdog(rep, 180*time.Second)
 	verif := os.Getenv("VERIF_DIR")
 	if verif == "" {
 		verif = "/verif"
